@@ -841,10 +841,10 @@ impl Sim {
                 self.pair_done = true;
                 break;
             }
-            let w0 = crate::runner::writes_now();
+            let w0 = crate::runner::bounds_now();
             self.dispatch(item.ev);
             if self.record_writes {
-                let w1 = crate::runner::writes_now();
+                let w1 = crate::runner::bounds_now();
                 if w1 > w0 && self.client.is_some() {
                     self.event_writes.push((self.events, w0 + 1, w1, self.last_event_kind.clone()));
                 }
@@ -1017,6 +1017,9 @@ impl Sim {
                 };
                 crate::runner::arm_pause(write, job);
                 self.dispatch(ev);
+                if crate::runner::take_paused_at_lock_intent() {
+                    self.stat("probe.c17.paused_before_taking_the_lock");
+                }
                 match crate::runner::join_pair() {
                     Ok(a) => self.pair_answer = Some(a),
                     Err(e) if e == "DEADLOCK" => {
